@@ -179,12 +179,17 @@ func init() {
 				}
 				units = append(units, Unit{"VerifC02", []string{src, mode, cost, st, cfgs}})
 			}
-			for _, src := range shapeFamily(maxM, pol, false, "BI") {
+			var family []string
+			withAllAliases(func() []Unit { family = shapeFamily(maxM, pol, false, "BI"); return nil })
+			for _, src := range family {
 				add(src, "v", "", "")
 				hasOp := strings.Contains(src, "(p ") || strings.Contains(src, "(q ")
 				if hasOp {
 					add(src, "v", "", "pq")
 				}
+			}
+			for _, src := range undefModeShapes(tier) {
+				units = append(units, Unit{"VerifC02", []string{src, "v", "", "", "all", "undef"}})
 			}
 			// symbolic costs: all-variable leaf assignment (constants carry no configurable cost)
 			for _, src := range shapeFamily(maxM, leavesVarsOnly, false, "BI") {
@@ -314,10 +319,22 @@ func shapeUnitsMax(tier string, entry string, variants [][]string, stressVariant
 	return units
 }
 
+// undefModeShapes: the sources run once more with nothing registered and AllowUndefinedVariable on
+// (all variables then share the undefined key and are told apart by name only).
+func undefModeShapes(tier string) []string {
+	m := 1
+	if tier == "thorough" {
+		m = 2
+	}
+	out := shapeFamily(m, leavesStandard, false, "BI")
+	return append(out, "(and (> i0 i1) (= i2 i3) b0)", "(or b0 (and b1 (< i0 i1)) (if b2 (= i0 i2) b3))", "(if (<= i0 i1) (+ i0 i2) (- i1 i0))")
+}
+
 func shapeBounds(extra map[string]interface{}) func(tier string) map[string]interface{} {
 	return func(tier string) map[string]interface{} {
 		maxM, _ := shapeTierParams(tier)
-		b := map[string]interface{}{"shapes": "all typed shapes with ≤" + itoa(maxM) + " internal nodes (leaf variants: all variables, each single leaf a symbolic constant, all constants, one literal) + jump-stress family",
+		b := map[string]interface{}{"shapes": "all typed shapes with ≤" + itoa(maxM) + " internal nodes (leaf variants: all variables, each single leaf a symbolic constant, all constants, one literal, one variable repeated in every position of its sort) + jump-stress family",
+			"registration":   "variables registered with explicit keys; C02–C05 also run the shapes with ≤1 (thorough ≤2) internal nodes with nothing registered and AllowUndefinedVariable on",
 			"configurations": "all 16 optimisation subsets per unit"}
 		for k, v := range extra {
 			b[k] = v
@@ -337,7 +354,11 @@ func init() {
 	registerProp(&PropSpec{
 		ID: "C03",
 		Units: func(tier string, seed int64, sh *Shared) []Unit {
-			return shapeUnits(tier, "VerifC03", [][]string{{"v"}, {"f"}}, [][]string{{"v"}})
+			units := shapeUnits(tier, "VerifC03", [][]string{{"v"}, {"f"}}, [][]string{{"v"}})
+			for _, src := range undefModeShapes(tier) {
+				units = append(units, Unit{"VerifC03", []string{src, "v", "undef"}})
+			}
+			return units
 		},
 		Reach:       []string{"trace"},
 		Bounds:      shapeBounds(map[string]interface{}{"effects": "every VariableFetcher.Get and every call of the registered operators p,q (arguments, result/failure) as symbolic terms; fetches may fail in mode f"}),
@@ -349,7 +370,11 @@ func init() {
 		ID: "C04",
 		Units: func(tier string, seed int64, sh *Shared) []Unit {
 			c := tierConfigs(tier)
-			return shapeUnitsMax(tier, "VerifC04", [][]string{{"split", c}, {"all", c}}, [][]string{{"split", c}}, 7)
+			units := shapeUnitsMax(tier, "VerifC04", [][]string{{"split", c}, {"all", c}}, [][]string{{"split", c}}, 7)
+			for _, src := range undefModeShapes(tier) {
+				units = append(units, Unit{"VerifC04", []string{src, "split", c, "undef"}}, Unit{"VerifC04", []string{src, "all", c, "undef"}})
+			}
+			return units
 		},
 		Reach:       []string{"definite", "completion-succeeds", "larger-mask-definite", "all-available"},
 		Bounds:      shapeBounds(map[string]interface{}{"availability": "arbitrary mask (one symbolic Boolean per variable), arbitrary larger mask, completions as fresh symbols"}),
@@ -362,6 +387,9 @@ func init() {
 		Units: func(tier string, seed int64, sh *Shared) []Unit {
 			c := tierConfigs(tier)
 			units := shapeUnitsMax(tier, "VerifC05", [][]string{{c}}, [][]string{{c}}, 7)
+			for _, src := range undefModeShapes(tier) {
+				units = append(units, Unit{"VerifC05", []string{src, c, "undef"}})
+			}
 			// the library's own fetchers with variables registered only in an extended config
 			// (dense key layouts: with sparse keys the extension's variables land inside the slice, where the
 			// library's slice fetcher reports an empty slot as cached — outside what the property states)
@@ -447,7 +475,9 @@ func init() {
 			if maxM > 2 {
 				pol = leavesStandard
 			}
-			for _, src := range shapeFamily(maxM, pol, false, "BI") {
+			var family []string
+			withAllAliases(func() []Unit { family = shapeFamily(maxM, pol, false, "BI"); return nil })
+			for _, src := range family {
 				units = append(units, Unit{"VerifC10", []string{src, "", "all"}})
 				hasP, hasQ, hasZ := strings.Contains(src, "(p "), strings.Contains(src, "(q "), strings.Contains(src, "(z)")
 				if hasP || hasQ || hasZ {
@@ -493,12 +523,30 @@ func init() {
 				for _, src := range shapeFamily(small, leavesStandard, false, "BI") {
 					units = append(units, Unit{"VerifC12", []string{src, "debug", "v", c}})
 					units = append(units, Unit{"VerifC12", []string{src, "event", "f", c}})
+					units = append(units, Unit{"VerifC12", []string{src, "both", "v", "0000,1111"}})
+				}
+				// operand stacks of every allocation class (≤8, ≤16, larger): wide and deep arithmetic
+				for _, n := range []int{8, 9, 16, 17, 18} {
+					var vs []string
+					for k := 0; k < n; k++ {
+						vs = append(vs, fmt.Sprintf("i%d", k))
+					}
+					wide := "(+ " + strings.Join(vs, " ") + ")"
+					deep := ""
+					for k := 0; k < n-1; k++ {
+						deep += "(+ " + vs[k] + " "
+					}
+					deep += vs[n-1] + strings.Repeat(")", n-1)
+					for _, src := range []string{wide, deep} {
+						units = append(units, Unit{"VerifC12", []string{src, "event", "v", "0000,1111"}})
+					}
+					units = append(units, Unit{"VerifC12", []string{wide, "debug", "v", "0000"}})
 				}
 				return units
 			})
 		},
 		Reach:      []string{"eval-events", "builtin-events"},
-		Bounds:     shapeBounds(map[string]interface{}{"consumer": "events are read only after the evaluation has returned (retaining / buffered consumer)", "configurations": "quick: 5 covering subsets; thorough: all 16"}),
+		Bounds:     shapeBounds(map[string]interface{}{"consumer": "events are read only after the evaluation has returned (retaining / buffered consumer)", "stacks": "wide (one operator) and deep (right-nested) sums of 8, 9, 16, 17, 18 variables: every operand-stack allocation class", "configurations": "quick: 5 covering subsets; thorough: all 16"}),
 		Rule:       "one unit per (shape, event option, fault mode); a state is one symbolic path through plain Eval, event Eval, reference evaluation and TryEval",
 		WallBudget: shapeBudget,
 	})
@@ -562,7 +610,7 @@ func init() {
 				units = append(units, Unit{"VerifC13", []string{src, "", "all"}})
 			}
 			for _, src := range literalShapes(1, tier) {
-				units = append(units, Unit{"VerifC13", []string{src, "event", "all"}}, Unit{"VerifC13", []string{src, "debug", "all"}})
+				units = append(units, Unit{"VerifC13", []string{src, "event", "all"}}, Unit{"VerifC13", []string{src, "debug", "all"}}, Unit{"VerifC13", []string{src, "both", "0000,1111"}})
 			}
 			// string literal contents: arbitrary characters through lexer → Dump → lexer
 			maxL := 2
@@ -759,7 +807,8 @@ func init() {
 	registerProp(&PropSpec{
 		ID: "C08",
 		Units: func(tier string, seed int64, sh *Shared) []Unit {
-			shapes := []string{"(and b0 (or KB0 b1))", "(if (> i0 KI0) (+ i1 (+ 1 2)) (q i2))", "(and (p b0) (> (+ 1 2) i0) (or b1 (and b2 b3)))", "(or (and b0 b1) (and (= i0 3) true))"}
+			shapes := []string{"(and b0 (or KB0 b1))", "(if (> i0 KI0) (+ i1 (+ 1 2)) (q i2))", "(and (p b0) (> (+ 1 2) i0) (or b1 (and b2 b3)))", "(or (and b0 b1) (and (= i0 3) true))",
+				"(and (p KB0) b0)", "(if (p true) (+ (q 2) KI0) i0)"}
 			if tier == "thorough" {
 				shapes = append(shapes, shapeFamily(1, leavesStandard, false, "BI")...)
 			}
@@ -782,14 +831,15 @@ func init() {
 					}
 				}
 				units = append(units, Unit{"VerifC08", []string{s, "order", "1111", s}})
+				units = append(units, Unit{"VerifC08", []string{s, "cross", "1111", s}}, Unit{"VerifC08", []string{s, "cross", "1000", s}})
 				units = append(units, Unit{"VerifC08", []string{";;;; reordering: false\n" + s, "order", "0101", s}})
 			}
 			units = append(units, Unit{"VerifC08Copy", []string{"copy"}}, Unit{"VerifC08Copy", []string{"extend"}})
 			return units
 		},
-		Reach: []string{"compiled-frozen", "compile-ok", "compile-error", "recompiled", "copied"},
+		Reach: []string{"compiled-frozen", "compile-ok", "compile-error", "recompiled", "cross", "copied"},
 		Bounds: func(tier string) map[string]interface{} {
-			return map[string]interface{}{"config": "2-4 entries per map (symbolic constant values and costs), StatelessOperators with spare capacity", "sources": "4 shapes (+ all shapes ≤1 internal node thorough) × {no directive, 4 directive texts, 3 invalid directives, 5 malformed variants}",
+			return map[string]interface{}{"config": "2-4 entries per map (symbolic constant values and costs), StatelessOperators with spare capacity and an unregistered name in front; a second config using the same names for other contents (alternating compilations)", "sources": "6 shapes, two of them calling custom operators on constants (+ all shapes ≤1 internal node thorough) × {no directive, 4 directive texts, 3 invalid directives, 5 malformed variants}",
 				"map_orders": "every permutation of maps with ≤3 entries and every rotation of larger ones, for each of the five config maps, in the second compilation"}
 		},
 		Rule:        "one unit per (source text, variant, options); a state is one symbolic path (map iteration orders are explicit nondeterministic choices)",
@@ -872,9 +922,22 @@ func init() {
 				u("nullary-nested", n, "0000", "")
 				u("nullary-nested", n, "1111", "")
 			}
+			// leaves spelled like the compiler's internal marker words must not be taken for its synthetic nodes
+			for _, d := range []string{"7", "8", "9", "16", "17"} {
+				for _, o := range []string{"0000", "1111"} {
+					u("marker", d+",fi", o, "")
+					u("marker-str", d+",fi", o, "")
+				}
+				u("marker-str", d+",if", "0000", "")
+				u("marker", d+",fi", "0100", "event")
+			}
 			for _, n := range []string{"16382", "16383", "16384", "16385"} {
 				u("nodes", n, "0000", "event")
 			}
+			u("nodes", "16383", "0000", "both")
+			u("nodes", "16384", "0000", "both")
+			u("stack", "9", "0000", "both")
+			u("stack", "17", "1111", "both")
 			u("nodes", "16384", "1111", "debug")
 			u("nodes", "16383", "0010", "debug")
 			if tier == "thorough" {
@@ -894,7 +957,7 @@ func init() {
 		Reach: []string{"accepted", "rejected"},
 		Bounds: func(tier string) map[string]interface{} {
 			return map[string]interface{}{"operand_counts": "2,126,127,128,129,200 flat; (63,64) (64,64) (64,65) (127,1) (127,2) (126,1) (2,125) (2,126) through flattening with ReduceNesting on and off",
-				"node_counts": "16382..16385 with ReportEvent/Debug, 32767/32768 plain (32765..32769 in all modes thorough)", "stack_depths": "6,7,8,9,14,15,16,17,40 with and without fast operators and events",
+				"node_counts": "16382..16385 with ReportEvent/Debug, 32767/32768 plain (32765..32769 in all modes thorough)", "stack_depths": "6,7,8,9,14,15,16,17,40 with and without fast operators and events; depths 7,8,9,16,17 again with a variable named fi and with the string literals \"fi\" / \"if\" as leaves",
 				"data": "the variable's value is an arbitrary int64 (solver variable); the reference is the same wrapping fold"}
 		},
 		Rule:        "one unit per (kind, size, options, event mode); sizes are structural and enumerated at and around each limit; the narrowing monitor checks every Convert to a narrower integer and every int8/int16 +,-,* executed in the package",
@@ -1007,6 +1070,7 @@ func init() {
 				for _, src := range shapeFamily(1, leavesStandard, false, "BI") {
 					units = append(units, Unit{"VerifC06Run", []string{src, "", c, "*"}})
 					units = append(units, Unit{"VerifC06Run", []string{src, "event", "0000,1111", "*"}})
+					units = append(units, Unit{"VerifC06Run", []string{src, "both", "0000,1111", "*"}})
 				}
 				maxM, _ := shapeTierParams(tier)
 				for _, src := range shapeFamily(maxM, leavesVarsOnly, false, "BI") {
@@ -1221,10 +1285,21 @@ func init() {
 		Units: func(tier string, seed int64, sh *Shared) []Unit {
 			var units []Unit
 			allFlags := []string{"", "v", "c", "t", "vc", "vt", "ct", "vct"}
-			for _, typ := range []string{"bool", "num"} {
+			typs := []string{"bool", "num"}
+			// level 0 first (cheap): every option subset, then every subset of the variable classes supplied
+			// (the variables are an input of their own: every class may be missing, and values the generator
+			// has no use for may be present)
+			for _, typ := range typs {
 				for _, f := range allFlags {
 					units = append(units, Unit{"VerifC20", []string{"0", typ, f}})
 				}
+				for _, f := range []string{"v", "vt", "vct"} {
+					for _, vs := range []string{"", "n", "b", "d", "nb", "nd", "bd", "nbds"} {
+						units = append(units, Unit{"VerifC20", []string{"0", typ, f, vs}})
+					}
+				}
+			}
+			for _, typ := range typs {
 				l1 := []string{"", "t", "vct"}
 				if tier == "thorough" {
 					l1 = allFlags
@@ -1232,14 +1307,20 @@ func init() {
 				for _, f := range l1 {
 					units = append(units, Unit{"VerifC20", []string{"1", typ, f}})
 				}
+				if tier == "thorough" {
+					for _, fv := range [][2]string{{"v", ""}, {"v", "n"}, {"v", "b"}, {"vt", ""}, {"vt", "n"}, {"vt", "b"}, {"vt", "d"}, {"vt", "nbds"}} {
+						units = append(units, Unit{"VerifC20", []string{"1", typ, fv[0], fv[1]}})
+					}
+				}
 			}
 			return units
 		},
 		Reach: []string{"generated", "bare-atom", "definite", "dne"},
 		Bounds: func(tier string) map[string]interface{} {
 			return map[string]interface{}{"levels": "0 and 1, exhaustively over all values (*rand.Rand).Intn can return (nondeterministic stub); level 1 = one operator/if over leaf children",
-				"children": "variables carry arbitrary int64 / bool values (solver variables) or DNE, numeric literals are arbitrary values in their range, so at level 1 the operands range over every possible child result; the code computing Res from the children's Res is the same at every level ≥ 1",
-				"options":  "both result types × {variables, conditions, TryEval/DNE} quick: none and all at level 1 (every subset at level 0); thorough: every subset at level 1"}
+				"children":  "variables carry arbitrary int64 / bool values (solver variables) or DNE, numeric literals are arbitrary values in their range, so at level 1 the operands range over every possible child result; the code computing Res from the children's Res is the same at every level ≥ 1",
+				"variables": "2 numbers (one passed as Go int), 2 booleans, 2 DNE variables; every class present or missing (8 subsets at level 0; thorough: 8 option/subset pairs at level 1 as well), and a string variable the generator has no use for",
+				"options":   "both result types × {variables, conditions, TryEval/DNE} quick: none and all at level 1 (every subset at level 0); thorough: every subset at level 1"}
 		},
 		Rule: "one unit per (level, result type, option set); a state is one symbolic path through the generator, Compile and Eval/TryEval plus the reference evaluator",
 		Assumptions: []string{"levels ≥ 2 are not run: their sub-expressions are arbitrary children of the level-1 step; that a sub-expression can be replaced by a variable bound to its value without changing the result is compositionality of evaluation (C01/C05)",
